@@ -44,6 +44,9 @@ NameTable == <<
   [p |-> "FooBar",   g |-> "FooBar",   s |-> "foo_bar"],
   [p |-> "foo_bar",  g |-> "FooBar",   s |-> "foo_bar"],
   [p |-> "foobar",   g |-> "Foobar",   s |-> "foobar"],
+  \* message names that are a proper suffix / prefix of the message name FooBar
+  [p |-> "Bar",      g |-> "Bar",      s |-> "bar"],
+  [p |-> "Foo",      g |-> "Foo",      s |-> "foo"],
   \* the names protoc gives the two fields of a map entry message, here as names of ordinary fields
   [p |-> "value",    g |-> "Value",    s |-> "value"],
   [p |-> "key",      g |-> "Key",      s |-> "key"],
